@@ -169,7 +169,10 @@ enum Blk {
     /// complete (or capped) enumeration of one program x policy
     Enum { chunk: usize, gzip: Option<u32>, prog: Vec<POp>, policy: WakerPolicy, cap: u64, bound: u32 },
     /// like Enum, with the consumer dropping the body after `drop_after` polls
-    EnumDrop { chunk: usize, gzip: Option<u32>, prog: Vec<POp>, drop_after: u32, cap: u64 },
+    EnumDrop { chunk: usize, gzip: Option<u32>, prog: Vec<POp>, drop_after: u32, cap: u64, bound: u32 },
+    /// a long program (thousands of lock operations): at most one preemption, a given number of
+    /// spurious polls, capped
+    Deep { chunk: usize, gzip: Option<u32>, prog: Vec<POp>, policy: WakerPolicy, cap: u64, spurious: u8 },
     Random { chunk: usize, gzip: Option<u32>, n: u64, len: (usize, usize), salt: u64 },
     Stress { chunk: usize, gzip: Option<u32>, n: u64, salt: u64 },
 }
@@ -234,6 +237,20 @@ fn c10_blocks(ctx: &Ctx) -> Vec<Blk> {
         b.push(Blk::Enum { chunk: 4096, gzip: Some(1), prog: prog.clone(), policy: WakerPolicy::Fresh, cap: if thorough(ctx) { 4000 } else { 400 }, bound: u32::MAX });
         b.push(Blk::Enum { chunk: 1000, gzip: Some(6), prog, policy: WakerPolicy::Same, cap: if thorough(ctx) { 4000 } else { 400 }, bound: u32::MAX });
     }
+    // a deep backlog (thousands of queued chunks) that the consumer drains completely, then more
+    // data / the end: the wake-up after an idle period following a burst
+    let depths: &[u32] = if thorough(ctx) { &[300, 1500, 3000, 6000, 20_000] } else { &[300, 3000, 6000] };
+    for depth in depths {
+        for (k, prog) in [
+            vec![POp::Write(*depth), POp::Wait, POp::Write(1), POp::Wait, POp::Write(2), POp::Flush, POp::Wait],
+            vec![POp::Write(*depth), POp::Wait],
+            vec![POp::Write(*depth), POp::Wait, POp::Abort],
+        ].into_iter().enumerate() {
+            for spurious in [0u8, 2] {
+                b.push(Blk::Deep { chunk: 1, gzip: None, prog: prog.clone(), policy: POLICIES[(k + spurious as usize) % 3], cap: if thorough(ctx) { 400 } else { 30 }, spurious });
+            }
+        }
+    }
     let n_rand = if thorough(ctx) { 64 } else { 16 };
     for k in 0..n_rand {
         b.push(Blk::Random { chunk: [2usize, 1, 3, 4096][k % 4], gzip: if k % 5 == 4 { Some(1) } else { None }, n: if thorough(ctx) { 1600 } else { 250 }, len: (3, 6), salt: k as u64 });
@@ -262,9 +279,21 @@ fn run_blk(ctx: &Ctx, blk: &Blk, tag: u64, sink: &mut Sink, judge: &dyn Fn(&Sche
             let key = format!("programs_{}ops_{}", prog.len(), if complete && *bound == u32::MAX { "enumerated_completely" } else if complete { "enumerated_completely_within_preemption_bound" } else { "capped" });
             sink.count(&key);
         }
-        Blk::EnumDrop { chunk, gzip, prog, drop_after, cap } => {
+        Blk::Deep { chunk, gzip, prog, policy, cap, spurious } => {
+            let mut base = SchedCase::new(*chunk, *gzip, prog.clone(), *policy);
+            base.preempt_bound = 1;
+            base.spurious = *spurious;
+            let (n, _) = dfs(&base, *cap, sink, judge);
+            sink.add("schedules", n);
+            sink.add("deep_backlog_schedules", n);
+        }
+        Blk::EnumDrop { chunk, gzip, prog, drop_after, cap, bound } => {
             let mut base = SchedCase::new(*chunk, *gzip, prog.clone(), WakerPolicy::Same);
             base.drop_body_after = Some(*drop_after);
+            base.preempt_bound = *bound;
+            if *bound != u32::MAX {
+                base.spurious = 0;
+            }
             base.sample_hints = false;
             let (n, _) = dfs(&base, *cap, sink, judge);
             sink.add("schedules", n);
@@ -308,6 +337,29 @@ fn run_blk(ctx: &Ctx, blk: &Blk, tag: u64, sink: &mut Sink, judge: &dyn Fn(&Sche
     }
 }
 
+/// Sequential histories (engine E2) judged for lost wake-ups only: whenever a poll returned
+/// Pending and a later poll returns data / the end / an error, the waker that the Pending poll
+/// registered must have been woken in between.
+pub fn c10_seq_judge(c: &crate::e2::StreamCase, o: &crate::e2::StreamObs, sink: &mut Sink) -> (Verdict, Option<u64>) {
+    if o.build_panic.is_some() || o.steps.iter().any(|s| matches!(s.res, crate::e2::Res::Panic(_))) {
+        return (Verdict::DontCare("panic (judged by C08)".into()), None);
+    }
+    if let Some(w) = &o.lost_wake {
+        return (Verdict::viol(format!("lost-wakeup-sequential|{}", if c.gzip_level.is_some() { "gzip" } else { "raw" }), w.clone()), None);
+    }
+    sink.add("sequential_park_then_ready_pairs", o.park_wake_pairs);
+    sink.count("sequential_histories");
+    (Verdict::Ok, if o.park_wake_pairs > 0 { Some(crate::util::hash64(c)) } else { None })
+}
+
+fn c10_seq_blocks(ctx: &Ctx) -> usize {
+    if ctx.leg == crate::driver::Leg::Tsan {
+        0
+    } else {
+        crate::p_stream::c08_n_blocks(ctx)
+    }
+}
+
 pub struct C10;
 
 impl Prop for C10 {
@@ -318,19 +370,29 @@ impl Prop for C10 {
         "exploration"
     }
     fn rule(&self, ctx: &Ctx) -> String {
-        format!("executions of the real chunker on two threads under a token-passing scheduler driven by the instrumented mutex (decision points: before every critical section, between unlock and wake, at every Pending: park / spurious re-poll, <= 2 spurious polls per run; waker policy same / fresh-per-poll / alternating). Producer programs over {{write<c, write>=c, flush, wait-until-delivered, abort}} + final drop: ALL schedules of ALL programs of <= {} operations (chunk 2, raw); capped enumeration for chunk sizes 1 and 4096 and the gzip writer{}; seeded random schedules of 3-6-operation programs; free-running stress with injected delays. One evaluation = one schedule; distinct non-trivial = distinct event-trace hashes",
+        format!("executions of the real chunker on two threads under a token-passing scheduler driven by the instrumented mutex (decision points: before every critical section, between unlock and wake, at every Pending: park / spurious re-poll, <= 2 spurious polls per run; waker policy same / fresh-per-poll / alternating). Producer programs over {{write<c, write>=c, flush, wait-until-delivered, abort}} + final drop: ALL schedules of ALL programs of <= {} operations (chunk 2, raw); capped enumeration for chunk sizes 1 and 4096 and the gzip writer{}; seeded random schedules of 3-6-operation programs; free-running stress with injected delays. One evaluation = one schedule; distinct non-trivial = distinct event-trace hashes. Deep backlogs: programs that queue 300..20000 chunks, let the consumer drain them and then publish more / abort, <= 1 preemption. Sequential histories: the C08 op sequences (incl. deep queues and both waker modes) judged for 'Pending, then ready, without the registered waker having fired'",
             if thorough(ctx) { 3 } else { 2 }, if thorough(ctx) { "; 4-operation programs within 3 preemptions, capped at 4000 schedules each" } else { "" })
     }
     fn n_blocks(&self, ctx: &Ctx) -> usize {
-        c10_blocks(ctx).len()
+        c10_blocks(ctx).len() + c10_seq_blocks(ctx)
     }
     fn run_block(&self, b: usize, sink: &mut Sink) {
         let ctx = sink.ctx.clone();
+        let n = c10_blocks(&ctx).len();
+        if b >= n {
+            crate::p_stream::c08_block(b - n, sink, &c10_seq_judge);
+            return;
+        }
         let blk = c10_blocks(&ctx)[b].clone();
         run_blk(&ctx, &blk, 10_000 + b as u64, sink, &c10_judge, &|_, _| {});
     }
     fn replay(&self, case: &Value, sink: &mut Sink) {
-        let c = SchedCase::from_json(if case.get("case").is_some() { &case["case"] } else { case });
+        let inner = if case.get("case").is_some() { &case["case"] } else { case };
+        if inner.get("ops").is_some() {
+            crate::p_stream::replay(&c10_seq_judge, case, sink);
+            return;
+        }
+        let c = SchedCase::from_json(inner);
         let n = if matches!(c.mode, Mode::Stress(_)) { 200 } else { 1 };
         for _ in 0..n {
             if let Some(o) = run_sched(&c) {
@@ -340,7 +402,7 @@ impl Prop for C10 {
         }
     }
     fn floors(&self, ctx: &Ctx) -> Vec<(&'static str, u64)> {
-        let mut v = vec![("parks", 1000), ("wakes", 1000), ("spurious_polls", 1000), ("switches_inside_unlock_wake_window", 1000), ("stale_wakes", 100), ("runs_with_park_then_live_wake", 1000), ("stress_runs", 100), ("programs_2ops_enumerated_completely", 75)];
+        let mut v = vec![("parks", 1000), ("wakes", 1000), ("spurious_polls", 1000), ("switches_inside_unlock_wake_window", 1000), ("stale_wakes", 100), ("runs_with_park_then_live_wake", 1000), ("stress_runs", 100), ("programs_2ops_enumerated_completely", 75), ("deep_backlog_schedules", 100), ("sequential_park_then_ready_pairs", 10_000)];
         if thorough(ctx) {
             v.push(("programs_3ops_enumerated_completely", 375));
         }
@@ -460,9 +522,19 @@ fn c11_sched_blocks(ctx: &Ctx) -> Vec<Blk> {
     // consumer drops the body after k polls, all schedules (capped): programs without abort
     for prog in programs(2, 2).into_iter().filter(|p| !p.contains(&POp::Abort) && !p.is_empty()) {
         for k in 0..3u32 {
-            b.push(Blk::EnumDrop { chunk: 2, gzip: if k == 2 { Some(1) } else { None }, prog: prog.clone(), drop_after: k, cap: if thorough(ctx) { 2000 } else { 150 } });
+            b.push(Blk::EnumDrop { chunk: 2, gzip: if k == 2 { Some(1) } else { None }, prog: prog.clone(), drop_after: k, cap: if thorough(ctx) { 2000 } else { 150 }, bound: u32::MAX });
         }
     }
+    // one long write (hundreds to thousands of chunks queued) with the body drop placed at every
+    // lock-granularity position inside it: a single preemption, enumerated completely
+    let depths: &[u32] = if thorough(ctx) { &[40, 300, 1030, 2100, 4200] } else { &[40, 300, 1030] };
+    for depth in depths {
+        for drop_after in [0u32, 1] {
+            b.push(Blk::EnumDrop { chunk: 1, gzip: None, prog: vec![POp::Write(*depth), POp::Write(3), POp::Flush], drop_after, cap: 3 * *depth as u64 + 50, bound: 1 });
+        }
+    }
+    b.push(Blk::EnumDrop { chunk: 4, gzip: None, prog: vec![POp::Write(4 * 1100), POp::Write(5), POp::Flush], drop_after: 0, cap: 4000, bound: 1 });
+    b.push(Blk::EnumDrop { chunk: 1, gzip: Some(1), prog: vec![POp::Write(3000), POp::Flush, POp::Write(3000), POp::Flush], drop_after: 0, cap: if thorough(ctx) { 6000 } else { 1500 }, bound: 1 });
     for k in 0..(if thorough(ctx) { 32 } else { 8 }) {
         b.push(Blk::Random { chunk: [2usize, 1, 4096][k % 3], gzip: if k % 4 == 3 { Some(1) } else { None }, n: if thorough(ctx) { 1500 } else { 250 }, len: (2, 6), salt: 1000 + k as u64 });
         b.push(Blk::Stress { chunk: [2usize, 1, 4096][k % 3], gzip: if k % 4 == 3 { Some(6) } else { None }, n: if thorough(ctx) { 300 } else { 50 }, salt: 2000 + k as u64 });
